@@ -118,6 +118,88 @@ def _leaf_texts(v):
     return out
 
 
+def _build(sc, rules=None):
+    d = sc.get('default')
+    default_rule = None
+    if isinstance(d, str):
+        default_rule = d
+    elif isinstance(d, dict):
+        default_rule = _parser.parse_rule(d['check'])
+    conf = _conf(sc.get('enforce_scope', True), sc.get('default_opt'), sc.get('content_type'))
+    e = policy.Enforcer(conf, use_conf=False, default_rule=default_rule)
+    e.set_rules(policy.Rules.from_dict(sc['rules'] if rules is None else rules, e.default_rule), use_conf=False)
+    for name, st in sc.get('registered', []):
+        e.register_default(policy.RuleDefault(name, '!', scope_types=st))
+    return e
+
+
+def _ask(e, q, creds, target):
+    rule = q['rule']
+    if isinstance(rule, dict):
+        chk = _parser.parse_rule(rule['check'])
+        if rule.get('scope') is not None:
+            chk.scope_types = rule['scope']
+        rule = chk
+    fn = e.authorize if q.get('authorize') else e.enforce
+    if q.get('exc'):
+        return impl.outcome(lambda: fn(rule, target, creds, q.get('do_raise', False), impl.CustomExc,
+                                       *tuple(q.get('exc_args', ())), **q.get('exc_kwargs', {})))
+    return impl.outcome(lambda: fn(rule, target, creds, do_raise=bool(q.get('do_raise'))))
+
+
+def stateful_probes(rep, scenarios, suite, every=7):
+    """Decisions must not depend on what the same enforcer / check objects / credential objects were asked before.
+    (a) every query asked twice in a row and then all again in reverse order on ONE enforcer, re-using the very same
+        credentials and target objects; (b) an enforcer that served scenario P and then had scenario S's rules merged in
+        with set_rules(overwrite=False) must decide S's queries like a fresh enforcer holding the merged rules."""
+    last = {}
+    for i, sc in enumerate(scenarios):
+        if i % every:
+            continue
+        if any(isinstance(q['creds'], dict) is False for q in sc['queries']):
+            continue
+        pkey = (repr(sc.get('default')), sc.get('default_opt'), sc.get('enforce_scope', True), sc.get('content_type'))
+        prev = last.get(pkey)
+        if prev is not None and prev['rules'] == sc['rules']:
+            prev = None
+        e = _build(sc)
+        objs = [(copy.deepcopy(q['creds']), copy.deepcopy(q['target'])) for q in sc['queries']]
+        first = [_ask(e, q, c, t) for q, (c, t) in zip(sc['queries'], objs)]
+        again = [_ask(e, q, c, t) for q, (c, t) in zip(sc['queries'], objs)]
+        rev = [_ask(e, q, c, t) for q, (c, t) in reversed(list(zip(sc['queries'], objs)))][::-1]
+        for name, other in (('asked again', again), ('asked again in reverse order', rev)):
+            if other != first:
+                k = [j for j in range(len(first)) if other[j] != first[j]][0]
+                rep.fail('%s-repeat:%r' % (suite, sc['queries'][k]['rule']),
+                         'the same request on the same enforcer decides %s the first time and %s when %s (rules %r, query %r)'
+                         % (first[k], other[k], name, sc['rules'], sc['queries'][k]),
+                         {'scenario': {k2: v for k2, v in sc.items() if not k2.startswith('_')}, 'query_index': k})
+                break
+        rep.stat('stateful_repeat')
+        if (prev is not None and not prev.get('registered') and not sc.get('registered') and 'remote' not in sc
+                and 'remote' not in prev):
+            carried = _build(prev)
+            for q in prev['queries']:
+                _ask(carried, q, copy.deepcopy(q['creds']), copy.deepcopy(q['target']))
+            carried.set_rules(policy.Rules.from_dict(sc['rules'], carried.default_rule), overwrite=False, use_conf=False)
+            merged = dict(prev['rules'])
+            merged.update(sc['rules'])
+            fresh = _build(sc, rules=merged)
+            # ask the new scenario's questions and the earlier ones again (rules that were not overwritten may refer to ones that were)
+            qs = list(sc['queries']) + [q for q in prev['queries'] if isinstance(q['rule'], str)]
+            a = [_ask(carried, q, copy.deepcopy(q['creds']), copy.deepcopy(q['target'])) for q in qs]
+            b = [_ask(fresh, q, copy.deepcopy(q['creds']), copy.deepcopy(q['target'])) for q in qs]
+            if a != b:
+                k = [j for j in range(len(a)) if a[j] != b[j]][0]
+                rep.fail('%s-carry:%r' % (suite, qs[k]['rule']),
+                         'an enforcer that first served rules %r and then had %r merged in (set_rules overwrite=False) decides '
+                         '%s for %r; a fresh enforcer with the merged rules decides %s'
+                         % (prev['rules'], sc['rules'], a[k], qs[k]['rule'], b[k]),
+                         {'first_rules': prev['rules'], 'merged_in': sc['rules'], 'query': qs[k]})
+            rep.stat('stateful_carry_over')
+        last[pkey] = sc
+
+
 def run_all(rep, scenarios, suite, check=None):
     """Run every scenario on both sides; record disagreements; call check(sc, impl_outs) for the
     direct property oracle. Returns list of impl outcome lists."""
@@ -133,4 +215,5 @@ def run_all(rep, scenarios, suite, check=None):
         if check is not None:
             check(sc, io)
         res.append(io)
+    stateful_probes(rep, scenarios, suite)
     return res
